@@ -10,7 +10,7 @@ from darrlint import selftest
 head = subprocess.check_output(['git', '-C', '/repo', 'rev-parse', '--short', 'HEAD'], text=True).strip()
 verified = {}
 for line in open(os.path.join(SRC, 'verify_all.log')):
-    m = re.match(r'RESULT (\S+)/(C\d+)/(\d): demo_clean=(\d+) demo_mutant=(\d+) tests=.(\d+) passed', line)
+    m = re.match(r'RESULT (\S+)/(C\d+)/(\d+): demo_clean=(\d+) demo_mutant=(\d+) tests=.(\d+) passed', line)
     if m:
         verified[(m.group(2), m.group(3))] = (int(m.group(4)), int(m.group(5)), int(m.group(6)))
 pids = ['C%02d' % i for i in range(1, 21)]
